@@ -27,6 +27,8 @@ TRUSTED = [
     "Python glue: scenario generator, path normalisation relative to the dataset root, value canonicalisation of frames, fault injector",
 ]
 
+NPROC = 8
+READ_TIMEOUT = 15.0
 VARIANTS = {"open": ["pre", "post"], "write": ["pre", "short", "post"], "close": ["post"], "mkdir": ["pre", "post"]}
 
 
@@ -63,6 +65,9 @@ def gen_scenario(rng, sid):
     jvals = rng.choice([["a", "b"], ["u"], ["a", "b", "c"]])
     n0 = rng.choice([1, 3, 6, 10])
     old_rgs = min(n0, rng.choice([1, 2, 3]))
+    if rng.random() < 0.25:                 # part numbers with two digits (10, 11, ...): numeric vs textual ordering
+        n0 = rng.choice([11, 12, 13])
+        old_rgs = n0 - rng.choice([0, 0, 1])
     new_parts = rng.choice([1, 2, 3, 4])
     n1 = new_parts * rng.choice([1, 2, 3])
     sc = {"id": sid, "partition_on": pcols, "columns": cols,
@@ -109,6 +114,74 @@ def fresh_read(root, rec=None):
     return pf, dsfs.values(pf.to_pandas())
 
 
+
+# ---------------------------------------------------------------------------------------------
+# function-against-function tie of Dataset/FsPaths.v (part names) with api.PART_ID / writer.find_max_part
+# ---------------------------------------------------------------------------------------------
+def gen_path(rng):
+    """mostly part-file-like ASCII paths, with the boundary shapes of the regular expression"""
+    r = rng.random()
+    num = rng.choice(["0", "7", "12", "007", "123456789012", "", "1a", "9"])
+    sep1 = rng.choice([".", ".", ".", "", "-", "0", "x", "/"])
+    sep2 = rng.choice([".", ".", ".", "", "_", "5"])
+    d = rng.choice(["", "", "k=1/", "k=1/j=u/", "part.3.parquet/", "apart/", "a b/", "k=part.9.parquet/"])
+    tail = rng.choice(["parquet", "parquet", "parquet", "parquet ", "parq", "parquet.gz", "PARQUET"])
+    stem = rng.choice(["part", "part", "part", "par", "xpart", "partpart", "Part"])
+    if r < 0.1:
+        return rng.choice(["_metadata", "_common_metadata", "", "part", "part..parquet", "part.1.parquet\n", "a\npart.1.parquet", ".parquet"])
+    return d + stem + sep1 + num + sep2 + tail
+
+
+def real_part_id(path):
+    from fastparquet.api import PART_ID
+    m = PART_ID.match(path)
+    return [] if m is None else [int(m["i"])]
+
+
+def real_find_max_part(paths):
+    import types
+    from fastparquet.writer import find_max_part
+    rgs = [types.SimpleNamespace(columns=[types.SimpleNamespace(file_path=p)]) for p in paths]
+    try:
+        return [find_max_part(rgs)]
+    except TypeError:
+        return []
+
+
+def blocks_of(trace):
+    """recorded fault-free trace -> (partitioned, row groups as [[dir, [chunks]] ...], md chunks, cmd chunks, normalised trace)"""
+    files, order, mk = {}, [], False
+    norm = []
+    closed = set()
+    for c in trace:
+        if c[0] == "mkdir":
+            mk = True
+            norm.append(["mkdir", c[1].encode()])
+        elif c[0] == "openw":
+            files[c[1]] = []
+            order.append(c[1])
+            closed.discard(c[1])
+            norm.append(["openw", c[1].encode(), 1 if c[2] else 0])
+        elif c[0] == "write":
+            files[c[1]].append(bytes(c[2]))
+            norm.append(["write", c[1].encode(), bytes(c[2])])
+        elif c[0] == "close":
+            if c[1] not in closed:              # a second close of the same handle is a no-op
+                norm.append(["close", c[1].encode()])
+            closed.add(c[1])
+        else:
+            norm.append(list(c))
+    rgs, last = [], None
+    for f in order:
+        if f in (dsfs.MD, dsfs.CMD):
+            continue
+        d, _, name = f.rpartition("/")
+        if name != last:
+            rgs.append([])
+            last = name
+        rgs[-1].append([d.encode(), files[f]])
+    return mk, rgs, files.get(dsfs.MD, []), files.get(dsfs.CMD, []), norm
+
 # ---------------------------------------------------------------------------------------------
 def run_scenario(arg):
     """Worker: everything that touches the real code for one scenario.  Returns plain data."""
@@ -119,9 +192,26 @@ def run_scenario(arg):
         pristine, work, alone = (os.path.join(base, x) for x in ("pristine", "work", "alone"))
         os.makedirs(base)
         do_write(pristine, sc, sc["frame0"], sc["offsets0"], False)
-        for pr in sc["prior"]:
-            do_write(pristine, sc, pr["frame"], pr["offsets"], True)
         pf0, old_vals = fresh_read(pristine)
+        for i, pr in enumerate(sc["prior"]):
+            # the earlier appends are appends under test, too (fault-free): each must add exactly its rows
+            al = os.path.join(base, "alone%d" % i)
+            do_write(al, sc, pr["frame"], pr["offsets"], False)
+            _, pv = fresh_read(al)
+            want = dsfs.cat_values(old_vals, pv)
+            raised = None
+            try:
+                do_write(pristine, sc, pr["frame"], pr["offsets"], True)
+            except BaseException as e:            # noqa
+                raised = "%s: %s" % (type(e).__name__, str(e)[:200])
+            st, val = dsfs.guarded(lambda: fresh_read(pristine)[1], READ_TIMEOUT)
+            if raised is not None or st != "ok" or val != want:
+                out["setup_failure"] = {"step": i, "raised": raised,
+                                        "read": ("other" if st == "ok" else st), "read_detail": (None if st == "ok" else val),
+                                        "rows_expected": len(want[0][1]), "rows_read": (len(val[0][1]) if st == "ok" and val else None)}
+                return out
+            old_vals = want
+        pf0, _ = fresh_read(pristine)
         refs = dsfs.refs_of(pf0)
         do_write(alone, sc, sc["frame1"], sc["offsets1"], False)
         _, new_vals = fresh_read(alone)
@@ -139,19 +229,30 @@ def run_scenario(arg):
                 except BaseException as e:       # noqa
                     raised = "%s: %s" % (type(e).__name__, str(e)[:200])
             r = {"k": k, "variant": variant, "raised": raised, "fired": rec.fired, "ncalls": rec.n,
-                 "trace": rec.trace, "kinds": rec.kinds, "bypassed": rec.bypassed}
-            rr = dsfs.Recorder(work)
-            try:
+                 "trace": rec.trace, "kinds": rec.kinds, "bypassed": rec.bypassed, "fired_at": rec.fired_at}
+            def reader():
+                rr = dsfs.Recorder(work)
                 with rr:
                     pf, vals = fresh_read(work, rr)
-                r["read"] = "old" if vals == old_vals else ("new" if vals == want_new else "other")
-                if r["read"] == "other":
-                    r["read_detail"] = {"rows": len(vals[0][1]) if vals else 0, "refs": dsfs.refs_of(pf)[-6:]}
-                r["read_opens"] = sorted(set(x for x in rr.reads if x not in ("",)))
-                r["refs_after"] = dsfs.refs_of(pf)
-            except BaseException as e:           # noqa
-                r["read"] = "unreadable"
-                r["read_detail"] = "%s: %s" % (type(e).__name__, str(e)[:200])
+                return vals, dsfs.refs_of(pf), sorted(set(x for x in rr.reads if x not in ("",)))
+
+            if raised is not None and rec.fired is not None and rec.fired[2] == dsfs.MD and dsfs.md_open_index(rec.trace) is not None:
+                # _metadata was write-opened and the failing call names it: the summary IS being rewritten (outside the
+                # property) and may be torn; nothing is claimed about such a state, so it is not opened
+                r["read"] = "not-read(fault inside the rewrite of _metadata)"
+            else:
+                # the native readers can spin forever on torn files (notes/C19.md): read in a child that can be killed
+                st, val = dsfs.guarded(reader, READ_TIMEOUT)
+                if st == "ok":
+                    vals, refs_after, read_opens = val
+                    r["read"] = "old" if vals == old_vals else ("new" if vals == want_new else "other")
+                    if r["read"] == "other":
+                        r["read_detail"] = {"rows": len(vals[0][1]) if vals else 0, "refs": refs_after[-6:]}
+                    r["read_opens"] = read_opens
+                    r["refs_after"] = refs_after
+                else:
+                    r["read"] = "unreadable" if st == "exc" else st
+                    r["read_detail"] = val
             snap1 = dsfs.snapshot(work)
             r["changed_old"] = sorted(p for p in snap0 if p not in (dsfs.MD, dsfs.CMD) and snap1.get(p) != snap0[p])
             r["md_same"] = snap1.get(dsfs.MD) == snap0[dsfs.MD]
@@ -167,9 +268,16 @@ def run_scenario(arg):
         out["runs"].append(b)
         n = b["ncalls"]
         kinds = b["kinds"]
+        hangs = 0
         for k in range(1, n + 1):
             for v in VARIANTS[kinds[k - 1]]:
-                out["runs"].append(one(k, v, False))
+                # every 23rd interrupted run is recorded WITH the written data, so that the FS model (incl. what a failing call
+                # leaves behind: nothing / everything / a short write) is compared with the real directory on interrupted traces too
+                out["runs"].append(one(k, v, (k * 31 + len(v)) % 23 == 0))
+                hangs += out["runs"][-1]["read"] in ("hang", "died")
+            if hangs >= 3:          # every one of them is reported; do not spend the budget waiting for more of the same
+                out["cut_short_after_hangs"] = k
+                break
     except BaseException:                         # noqa
         out["error"] = traceback.format_exc()[-3000:]
     finally:
@@ -195,10 +303,20 @@ def judge(sc, res, r):
         if r["read"] != "new":
             problems.append(("returned-but-not-new-content",
                              "append returned normally but a fresh open reads %s content (%s)" % (r["read"], r.get("read_detail"))))
-    elif phase == "before_md":
+    elif phase == "before_md" or (r["fired"] and r["fired"][2] not in (dsfs.MD, dsfs.CMD)):
+        # the failing call came before any write-open of _metadata, or it names a part file / directory (the append was
+        # still writing data, so by "parts first, summary last" the summary must not have been touched yet)
+        if phase != "before_md":
+            if r.get("fired_at") is not None and mdi >= r["fired_at"]:
+                problems.append(("summary-rewritten-after-the-failure",
+                                 "call %s on %s failed, and _metadata was opened for writing afterwards although the append reports failure" % (
+                                     r["fired"][1], r["fired"][2])))
+            else:
+                problems.append(("data-call-after-summary-rewrite-started",
+                                 "call %s on %s was issued after _metadata had been opened for writing" % (r["fired"][1], r["fired"][2])))
         if r["read"] != "old":
             problems.append(("failed-before-metadata-but-content-changed",
-                             "append raised (%s) before _metadata was opened for writing, but a fresh open reads %s (%s)" % (
+                             "append raised (%s) while it was still writing part files / before _metadata was opened for writing, but a fresh open reads %s (%s)" % (
                                  r["raised"], r["read"], r.get("read_detail"))))
         if r["changed_old"] or not r["md_same"]:
             problems.append(("failed-before-metadata-but-bytes-changed", "changed: %s, _metadata same: %s" % (r["changed_old"][:3], r["md_same"])))
@@ -213,10 +331,9 @@ def run(ctx):
     ctx.obligation("hygiene: no Admitted/Axiom/Parameter/... in coq/", not bad, "; ".join(bad))
     C.use_shadow()
     C.pqref()
-    import multiprocessing as mp
     rng = ctx.rng
-    nsc = 24 if ctx.quick() else 240
-    ctx.rule = ("scenario = hive dataset (0..2 partition columns, 1..3 row groups, 0..2 earlier appends, codec/stats varied) + an append of 1..4 new "
+    nsc = 18 if ctx.quick() else 150
+    ctx.rule = ("scenario = hive dataset (0..2 partition columns, 1..3 or 10..13 row groups, 0..2 earlier appends, codec/stats varied) + an append of 1..4 new "
                 "row groups; for EVERY k = 1..N (N = number of mkdir/open-for-write/write/close calls the fault-free append issues) and every variant "
                 "(fail before the call has an effect / after it / short write) the real append runs with the k-th call failing, then a fresh open; "
                 "a case is (scenario, k, variant); the fault-free run of a scenario is the only trivial one")
@@ -229,15 +346,45 @@ def run(ctx):
             sc["id"] = 100000 + i
             scs.insert(0, sc)
     args = [(sc, ctx.scratch, ctx.tier, None) for sc in scs]
-    with mp.get_context("fork").Pool(14) as pool:
-        results = pool.map(run_scenario, args, chunksize=1)
+    # crash-proof parallel map: a scenario whose worker dies or hangs is a reported failure, not a hung check
+    results = C.pmap(run_scenario, args, nproc=NPROC, job_timeout=900 if ctx.quick() else 2400)
+    for sc, res in zip(scs, list(results)):
+        if isinstance(res, dict) and "__crashed__" in res:
+            ctx.case({"sc": sc["id"], "k": None, "v": "crashed", "f": sc["frame1"], "p": sc["partition_on"]})
+            ctx.fail({"component": "write_multi.append", "symptom": "process-crashed-or-hung", "phase": None, "fault_kind": None, "variant": None},
+                     {"scenario": sc, "k": None, "variant": "pre"}, "the process running this scenario on the real code %s" % res["__crashed__"])
+    results = [r for r in results if not (isinstance(r, dict) and "__crashed__" in r)]
     pq = C.Pqref()
     by_id = {sc["id"]: sc for sc in scs}
+    # ---- FsPaths.part_id / find_max_part against api.PART_ID / writer.find_max_part
+    npaths = 600 if ctx.quick() else 6000
+    paths = sorted(set(gen_path(rng) for _ in range(npaths)))
+    mo = pq.batch([("part_id", p.encode()) for p in paths])
+    for p_, m in zip(paths, mo):
+        ctx.correspondence("FsPaths.part_id ~ api.PART_ID.match(path)['i']", {"path": p_}, m, real_part_id(p_))
+    ctx.count("part_id_paths", len(paths))
+    good = [p_ for p_ in paths if real_part_id(p_)]
+    lists = [[rng.choice(good) for _ in range(rng.choice([0, 1, 2, 5]))] + ([rng.choice(paths)] if rng.random() < 0.2 else [])
+             for _ in range(100 if ctx.quick() else 1000)]
+    mo = pq.batch([("find_max_part", [p_.encode() for p_ in l]) for l in lists])
+    for l, m in zip(lists, mo):
+        ctx.correspondence("FsPaths.find_max_part ~ writer.find_max_part", {"paths": l}, m, real_find_max_part(l))
+    model_trace = {"equal": 0, "different": 0, "examples": []}
     cmds, meta = [], []
     for res in results:
         sc = by_id[res["id"]]
         if res["error"]:
             raise RuntimeError("scenario %d failed in the harness:\n%s" % (res["id"], res["error"]))
+        if res.get("setup_failure"):
+            sf = res["setup_failure"]
+            ctx.case({"sc": sc["id"], "k": None, "v": "prior-append", "f": sc["frame1"], "p": sc["partition_on"]})
+            ctx.fail({"component": "write_multi.append", "symptom": "returned-but-not-new-content" if sf["raised"] is None else "fault-free-append-raised",
+                      "phase": "fault-free", "fault_kind": None, "variant": "prior-append"},
+                     {"scenario": sc, "k": None, "variant": "prior-append", "observed": sf},
+                     "fault-free append number %d of the scenario %s, and a fresh open then reads %s (%s rows, expected %s) %s" % (
+                         sf["step"] + 1, "raised " + sf["raised"] if sf["raised"] else "returned normally", sf["read"], sf["rows_read"],
+                         sf["rows_expected"], sf["read_detail"] or ""))
+            continue
         ctx.count("partition_columns", len(sc["partition_on"]))
         ctx.count("new_row_groups", sc["new_parts"])
         ctx.count("prior_appends", len(sc["prior"]))
@@ -267,6 +414,11 @@ def run(ctx):
                 extra = sorted(set(r["read_opens"]) - allowed)
                 ctx.correspondence("fresh open reads only _metadata and the files it references", short, [], extra)
             # tie 3: FS model replay of the recorded trace vs the real directory (runs recorded with data)
+            if "snap0" in r and r["raised"] is None:
+                # information (DESIGN 4.2): is the deterministic model trace exactly what the code did?
+                pt, rgs, mdc, cmdc, norm = blocks_of(r["trace"])
+                cmds.append(("append_trace", [p.encode() for p in refs], 1 if pt else 0, rgs, mdc, cmdc))
+                meta.append(("model", short, norm))
             if "snap0" in r:
                 cmds.append(("fs_run", [[k.encode(), v] for k, v in sorted(r["snap0"].items())], dsfs.sx_trace(r["trace"])))
                 meta.append(("fs", short, r))
@@ -274,6 +426,13 @@ def run(ctx):
     if len(outs) != len(cmds):
         raise RuntimeError("pqref answered %d of %d commands" % (len(outs), len(cmds)))
     for (kind, short, r), o in zip(meta, outs):
+        if kind == "model":
+            mt = [[bytes(x) if isinstance(x, (bytes, bytearray)) else x for x in c] for c in o[0]] if isinstance(o, list) and o else o
+            same = mt == [[x.encode() if isinstance(x, str) else x for x in c] for c in r]
+            model_trace["equal" if same else "different"] += 1
+            if not same and len(model_trace["examples"]) < 3:
+                model_trace["examples"].append({"scenario": short["scenario"], "model": str(mt)[:600], "recorded": str(r)[:600]})
+            continue
         if kind == "safe":
             ok = ctx.correspondence("check_safe_trace(recorded trace of the real append) = true", short, 1, o)
             if not ok and len(ctx.broken) and "trace" not in ctx.broken[-1]:
@@ -284,6 +443,9 @@ def run(ctx):
                                dict(sorted(model.items())) if isinstance(model, dict) else model,
                                dict(sorted(dsfs.hashes(r["snap1"]).items())))
     pq.close()
+    ctx.extra["model_trace_vs_recorded_fault_free_trace"] = model_trace
+    ctx.notes.append("Ops.append_trace (witness of the relation) equals the recorded fault-free call trace in %d of %d scenarios (information, not an obligation)" % (
+        model_trace["equal"], model_trace["equal"] + model_trace["different"]))
 
 
 def replay(rep):
@@ -299,6 +461,9 @@ def replay(rep):
         res = run_scenario((sc, tmp, "quick", (case["k"], case["variant"])))
         if res["error"]:
             print(res["error"])
+            return 1
+        if res.get("setup_failure"):
+            print("PROPERTY FAILS in a fault-free append while building the scenario: %s" % json.dumps(res["setup_failure"]))
             return 1
         r = res["runs"][0]
         phase, problems = judge(sc, res, r)
